@@ -44,7 +44,7 @@ def snapshot_of(v):
 OPS = [
     "add", "add_str", "radd_str", "mul", "slice", "index", "splice", "splice_str", "append", "join", "split", "splitlines",
     "ljust", "rjust", "cwna", "removed", "cwns", "was", "wasl_full", "wasl_partial", "strmeth", "rewrap", "copy", "observe",
-    "mutate", "observe_all",
+    "mutate", "observe_all", "noise",
 ]
 STRMETHS = [("upper", ()), ("strip", ()), ("center", (7,)), ("replace", ("a", "bb")), ("title", ()), ("rsplit", (" ",)), ("lower", ())]
 MUTATORS = ["setitem", "update", "delitem", "pop", "popitem", "clear", "setdefault", "ior", "fmtstr_setitem"]
@@ -213,6 +213,14 @@ def run_case(case):
                 for v in pool:
                     call(observe, v)
                 observed.update(range(n))
+            elif name == "noise":
+                # an unrelated value, built and rendered but never judged: style flags spelled as ints (0/1 instead of
+                # False/True).  It must not influence any value in the pool (process-wide caches keyed too coarsely would).
+                noise_atts = {k: (int(v) if isinstance(v, bool) else v) for k, v in op.get("atts", {}).items()}
+                for t, at in list(desc_of(a))[:3]:
+                    nv = fmtstr(t, **{**{k: (int(v) if isinstance(v, bool) else v) for k, v in at.items()}, **noise_atts})
+                    str(nv), len(nv), repr(nv), hash(nv)
+                res.label("noise_value")
             elif name == "mutate":
                 kind = MUTATORS[k % len(MUTATORS)]
                 res.label("mutation_attempt")
